@@ -1,5 +1,5 @@
 (* C18/Witness.v — non-vacuity of the hypotheses used in Properties.v and concrete evaluations. *)
-From Verif Require Import Common.Base Generated.MemLimiter18 C18.Model C18.Proofs C18.ProofsSys C18.ProofsFine.
+From Verif Require Import Common.Base Generated.MemLimiter18 C18.Model C18.Proofs C18.ProofsSys C18.ProofsFine C18.ProofsTotal.
 From Coq Require Import String.
 Local Open Scope Z_scope.
 
@@ -185,3 +185,29 @@ Example ex_fine_hyps :
   refcnt (f_life s) = 1 /\ f_fly s = Some (mkTick 1 1 90000000 0) /\
   refcnt (f_life (fst (frun lim_fixed (fsys0 0) (firstn 8 fine_ops)))) = 0.
 Proof. vm_compute. repeat split; reflexivity. Qed.
+
+(* total memory: a container with a 2 GiB cgroup-v2 limit on a 16 GiB host; an unlimited v1
+   container falling back to meminfo; both environments are bounded *)
+Definition env_v2 : mem_env := mkEnv (Some true) (memory_quota_v2 (V2Int 2147483648)) None (Some total16g).
+Definition env_v1_unlimited : mem_env :=
+  mkEnv (Some false) QErr (Some (memory_quota_v1 true (Some unlimitedMemorySize))) (Some total16g).
+
+Example ex_total_memory :
+  total_memory env_v2 = Some 2147483648 /\ total_memory env_v1_unlimited = Some total16g /\
+  total_memory (mkEnv (Some true) (memory_quota_v2 V2Max) None (Some total16g)) = Some total16g /\
+  total_memory (mkEnv (Some true) (memory_quota_v2 V2Garbage) None (Some total16g)) = None /\
+  total_memory (mkEnv None QErr None (Some total16g)) = None.
+Proof. vm_compute. repeat split; reflexivity. Qed.
+
+Example ex_env_bounded : env_bounded env_v2 /\ env_bounded env_v1_unlimited.
+Proof.
+  split; split.
+  - intros q H NE. cbn in H. injection H as <-. unfold U64. lia.
+  - intros m H. cbn in H. injection H as <-. unfold total16g, U64. lia.
+  - intros q H NE. cbn in H. injection H as <-. exfalso. apply NE. reflexivity.
+  - intros m H. cbn in H. injection H as <-. unfold total16g, U64. lia.
+Qed.
+
+Example ex_pct_on_cgroup :
+  option_map (fun l => (l_limit l, l_spike l)) (new_limiter cfg_pct (total_memory env_v2)) = Some (1073741824, 214748364).
+Proof. vm_compute. reflexivity. Qed.
